@@ -413,7 +413,7 @@ def compare(cases, results, fls):
 # ----------------------------------------------------------------------------
 # proof stage
 # ----------------------------------------------------------------------------
-def proof_stage(prop, timeout=1500):
+def proof_stage(prop, timeout=1500, tier="quick"):
     """compile everything props/<prop>.v needs, then re-run coqc on the props file to capture
     Print Assumptions.  returns dict(obligations, discharged, theorems, ok, log)"""
     relv = "props/%s.v" % prop
@@ -462,6 +462,20 @@ def proof_stage(prop, timeout=1500):
     res["ok"] = (not missing) and len(names) > 0
     if missing:
         res["log"] = "theorems without an allowed assumption set: %s\n%s" % (missing, out[-3000:])
+    if res["ok"] and tier == "thorough":
+        # independent re-check of the compiled property file and everything it depends on (coqchk re-type-checks the .vo
+        # files with a separate checker and lists the axioms and any switched-off kernel check in the whole closure)
+        ck = "coqchk -o -silent -Q model Gdsl.Model -Q proofs Gdsl.Proofs -Q props Gdsl.Props -Q gen Gdsl.Gen Gdsl.Props.%s" % prop
+        rc, out = sh("timeout 1500 %s" % ck, cwd=COQ, timeout=1560)
+        summary = out[out.find("CONTEXT SUMMARY"):] if "CONTEXT SUMMARY" in out else out[-2000:]
+        want = ["* Axioms: <none>", "relying on type-in-type: <none>", "relying on unsafe (co)fixpoints: <none>", "positivity is assumed: <none>"]
+        good = rc == 0 and all(w in summary for w in want)
+        res["coqchk"] = dict(cmd=ck, ok=good, summary=" ".join(summary.split())[:600])
+        res["checker_cmd"] += " && (cd coq && %s)" % ck
+        if not good:
+            res["ok"] = False
+            res["discharged"] = 0
+            res["log"] = "coqchk did not accept the closure of props/%s.vo with an empty axiom list:\n%s" % (prop, summary[-2500:])
     return res
 
 
